@@ -19,7 +19,7 @@ func init() { core.Register(c02{}) }
 func (c02) ID() string    { return "C02" }
 func (c02) Level() string { return "exploration" }
 func (c02) Rule() string {
-	return "enumerated: every digraph on 3 nodes (quick) and on 4 nodes (thorough) x every assignment of name ranks (so the name-sorted refresh enters each cycle at each rotation) x edge kind {named *T, named interface, named any, by-type *T, mixed}; random: cycle-rich graphs with 5..60 (quick) / 5..300 (thorough) nodes incl. cycles through by-type and qualified slices; self-only points in the five shapes (pointer, interface, named, slice of pointers, slice of interfaces) x required/optional inside random graphs. Oracle: termination decided by a step budget on SingletonComponentRegistry calls (logical steps), success, and per-point wiring against the reference model; a self-only point must give an error (required) or stay empty (optional). non-trivial = graph with a cycle or a self-only point; distinct = canonical graph signature; after every start each name is requested through GetComponentByName: whatever is handed out without an error must have every required point filled; stateless service locators that look themselves and their holders up in every Init; configuration tags on cycle members; sibling by-type points; post-processor lookups that repeat on every callback and cover both directions of a cycle; a post-processor component on a cycle; by-name edges named through placeholder defaults; lazyAfterStart family (unreferenced lazy cycles created by a lookup after the start); embeddedCycle family (one direction through a tagged embedded interface); sameNamedTypes family (a cycle through interfaces of two packages that print alike); in fault-free starts no lookup issued from a callback is answered with an error; selfEmbedded family (self-referring points in embedded structs behind other fields)"
+	return "enumerated: every digraph on 3 nodes (quick) and on 4 nodes (thorough) x every assignment of name ranks (so the name-sorted refresh enters each cycle at each rotation) x edge kind {named *T, named interface, named any, by-type *T, mixed}; random: cycle-rich graphs with 5..60 (quick) / 5..300 (thorough) nodes incl. cycles through by-type and qualified slices; self-only points in the five shapes (pointer, interface, named, slice of pointers, slice of interfaces) x required/optional inside random graphs. Oracle: termination decided by a step budget on SingletonComponentRegistry calls (logical steps), success, and per-point wiring against the reference model; a self-only point must give an error (required) or stay empty (optional). non-trivial = graph with a cycle or a self-only point; distinct = canonical graph signature; after every start each name is requested through GetComponentByName: whatever is handed out without an error must have every required point filled; stateless service locators that look themselves and their holders up in every Init; configuration tags on cycle members; sibling by-type points; post-processor lookups that repeat on every callback and cover both directions of a cycle; a post-processor component on a cycle; by-name edges named through placeholder defaults; lazyAfterStart family (unreferenced lazy cycles created by a lookup after the start); embeddedCycle family (one direction through a tagged embedded interface); sameNamedTypes family (a cycle through interfaces of two packages that print alike); in fault-free starts no lookup issued from a callback is answered with an error; selfEmbedded family (self-referring points in embedded structs behind other fields); lookups issued while an early reference is produced (LookupPP early mode)"
 }
 func (c02) Assumptions() []string {
 	return []string{
